@@ -1,6 +1,286 @@
+/-
+  C02 — positions: for every accepted query and every node of the resulting tree, `pos` and `size`
+  designate the node's body in the input, the span widened by head and tail designates the node
+  printed with them; the widened spans of the children of a node lie inside the node's span, in
+  order and without overlapping; the widened span of the root is the whole input.
+  All under the hypothesis of known finding KF1 (no separator directly before a ':'), and with the
+  numerals after `~` / `^` in their source spelling (as in C01).
+
+  Property theorems only; the lemmas are in Luqum/Lemmas:
+    LaidDefs    the predicate `Laid` and its body-indexed twin `Pos`
+    LaidAct, LaidBin, LaidActMain   every semantic action keeps the layout (`act_pos`)
+    LaidRun     the run invariant, for arbitrary tables with a certificate (`runLoop_laid`)
+    LaidLex     the lexer puts every token at its offset (`lex_tokPos`)
+    LaidPath    consequences path by path (`Laid.at`, `Laid.slices`, `Laid.chain`)
+    LaidCheck   Bool checker of `Laid` for the witnesses
+  The arithmetic of `binary_operation` is exact only because the LALR tables never hand it a right
+  operand of the class being built: this table fact comes from the kernel-checked certificate of
+  C03 (`Luqum.Props.C03.cert_ok`).
+-/
 import Luqum.Model.ParserInst
+import Luqum.Props.C01
+import Luqum.Props.C03
+import Luqum.Lemmas.LaidRun
+import Luqum.Lemmas.LaidLex
+import Luqum.Lemmas.LaidPath
+import Luqum.Lemmas.LaidCheck
+
 namespace Luqum.Props.C02
 open Luqum
-/-- placeholder until the property theorems land: the empty input is a syntax error at the end -/
+open Luqum.Props.C01 (noBlankBeforeColon tables_ok)
+
+/-! ### the predicate
+
+`Laid s off t` (Luqum/Lemmas/LaidDefs.lean) says: if the text `t.full s` (the tree printed with
+heads and tails) starts at offset `off` of a string, then for `t` and all its descendants `pos` is
+the offset of the node's body and `size` the length of the body. It is defined by recursion on the
+tree; the equations below are its definition, constructor by constructor (`LayAt l p body` is
+`l.pos = some p ∧ l.size = some body.length`). `NoneItem` is never laid out. -/
+
+theorem laid_term (s : NumStyle) (off : Int) (k : TermK) (v : Str) (l : Lay) :
+    Laid s off (.term k v l) ↔ l.pos = some (off + l.head.length) ∧ l.size = some (v.length : Int) := by
+  simp only [Laid, LayAt, body_term]
+
+theorem laid_field (s : NumStyle) (off : Int) (n : Str) (e : Tree) (l : Lay) :
+    Laid s off (.field n e l) ↔
+      LayAt l (off + l.head.length) (n ++ [':'] ++ e.full s) ∧
+      Laid s (off + l.head.length + n.length + 1) e := by
+  simp only [Laid, body_field]
+
+theorem laid_group (s : NumStyle) (off : Int) (k : GrpK) (e : Tree) (l : Lay) :
+    Laid s off (.group k e l) ↔
+      LayAt l (off + l.head.length) (['('] ++ e.full s ++ [')']) ∧
+      Laid s (off + l.head.length + 1) e := by
+  simp only [Laid, body_group]
+
+theorem laid_range (s : NumStyle) (off : Int) (a b : Tree) (il ih : Bool) (l : Lay) :
+    Laid s off (.range a b il ih l) ↔
+      LayAt l (off + l.head.length)
+        ([if il then '[' else '{'] ++ a.full s ++ "TO".toList ++ b.full s ++ [if ih then ']' else '}']) ∧
+      Laid s (off + l.head.length + 1) a ∧
+      Laid s (off + l.head.length + 1 + (a.full s).length + 2) b := by
+  simp only [Laid, body_range]
+
+theorem laid_approx (s : NumStyle) (off : Int) (k : ApxK) (t : Tree) (n : Num) (l : Lay) :
+    Laid s off (.approx k t n l) ↔
+      LayAt l (off + l.head.length) (t.full s ++ ['~'] ++ n.text s) ∧
+      Laid s (off + l.head.length) t := by
+  simp only [Laid, Tree.body]
+
+theorem laid_boost (s : NumStyle) (off : Int) (e : Tree) (n : Num) (l : Lay) :
+    Laid s off (.boost e n l) ↔
+      LayAt l (off + l.head.length) (e.full s ++ ['^'] ++ n.text s) ∧
+      Laid s (off + l.head.length) e := by
+  simp only [Laid, Tree.body]
+
+/-- the operands of an operation follow each other, separated by the operator word -/
+theorem laid_op (s : NumStyle) (off : Int) (k : OpK) (xs : List Tree) (l : Lay) :
+    Laid s off (.op k xs l) ↔
+      LayAt l (off + l.head.length) (joinWith k.word (Tree.fulls s xs)) ∧
+      LaidList s k.word.length (off + l.head.length) xs := by
+  simp only [Laid, body_op]
+
+theorem laidList_nil (s : NumStyle) (sep : Nat) (off : Int) : LaidList s sep off [] ↔ True := by
+  simp only [LaidList]
+
+theorem laidList_cons (s : NumStyle) (sep : Nat) (off : Int) (x : Tree) (r : List Tree) :
+    LaidList s sep off (x :: r) ↔ Laid s off x ∧ LaidList s sep (off + (x.full s).length + sep) r := by
+  simp only [LaidList]
+
+theorem laid_unary (s : NumStyle) (off : Int) (k : UnK) (a : Tree) (l : Lay) :
+    Laid s off (.unary k a l) ↔
+      LayAt l (off + l.head.length) (k.word ++ a.full s) ∧
+      Laid s (off + l.head.length + k.word.length) a := by
+  simp only [Laid, Tree.body]
+
+theorem laid_orange (s : NumStyle) (off : Int) (k : ORK) (a : Tree) (inc : Bool) (l : Lay) :
+    Laid s off (.orange k a inc l) ↔
+      LayAt l (off + l.head.length) (k.word ++ (if inc then ['='] else []) ++ a.full s) ∧
+      Laid s (off + l.head.length + (k.word ++ (if inc then ['='] else [])).length) a := by
+  simp only [Laid, Tree.body, orangePre]
+
+theorem laid_none (s : NumStyle) (off : Int) (l : Lay) : ¬ Laid s off (.none l) := by
+  simp only [Laid, not_false_eq_true]
+
+/-- generically: `pos` is the offset plus the length of the head, `size` the length of the body -/
+theorem laid_pos_size (s : NumStyle) (off : Int) (t : Tree) (h : Laid s off t) :
+    t.lay.pos = some (off + t.lay.head.length) ∧ t.lay.size = some ((t.body s).length : Int) :=
+  ((laid_iff_pos s t off).1 h).layAt
+
+/-! ### the main theorem -/
+
+private theorem adj_of_noBlank : ∀ toks : List Tok, noBlankBeforeColon toks = true →
+    Adj (toks.map Tok.toVal)
+  | [], _ => trivial
+  | [_], _ => trivial
+  | t1 :: t2 :: r, h => by
+    simp only [noBlankBeforeColon, Bool.and_eq_true, Bool.or_eq_true, bne_iff_ne, ne_eq,
+      List.isEmpty_iff] at h
+    refine ⟨fun hc => ?_, adj_of_noBlank (t2 :: r) h.2⟩
+    rw [toVal_isColon] at hc
+    rw [toVal_lay_tail]
+    rcases h.1 with h1 | h1
+    · exact absurd (by simpa using hc) h1
+    · exact h1
+
+/-- **generic form** (restated from `Luqum.runLoop_laid`): for ARBITRARY tables `T` satisfying the
+three `TablesOK` facts and ARBITRARY certificate `C` accepted by the checker of C03, a successful
+run of the LALR driver over a well-formed token sequence laid out from offset 0 returns a value laid
+out at offset 0 -/
+theorem run_laid (T : Tables) (C : Cert) (hT : TablesOK T) (hC : certOK T C = true) (fuel : Nat)
+    (toks : List Tok) (lerr : Option LexErr) (t : Tree) (hok : SeqOK (toks.map Tok.toVal))
+    (hp : SeqPos (toks.map Tok.toVal) 0)
+    (h : runLoop T fuel { states := [0], vals := [] } toks lerr = .ok (.item t)) :
+    Laid .raw 0 t := by
+  have := runLoop_laid hT hC fuel toks lerr _ hok hp h
+  exact (laid_iff_pos .raw t 0).2 (by simpa [Val.PosAt, Val.lay, Tree.head] using this)
+
+/-- the lexer puts every token at its place: `pos` of a token is the total length of the heads,
+lexemes and tails of the tokens before it, plus the length of its own head (whatever the input, as
+long as no illegal character is met) -/
+theorem lex_positions (s : Str) (toks : List Tok) (h : lex s = (toks, none)) : TokPos toks 0 :=
+  lex_tokPos h
+
+/-- **C02 (partial: up to KF1)**: if `parse s` succeeds and no separator stands directly before a
+`:`, then the tree is laid out at offset 0: for every node, `pos` is the offset of the node's body in
+the tree printed with heads and tails (numerals as spelled in the source) — which by C01 is `s` —
+and `size` is the length of that body.
+
+What is missing for the full property: the hypothesis `noBlankBeforeColon` (known finding KF1).
+Without it the clause fails for the printed text (see the witness `foo :bar` below): the lost blank
+is still counted in `size` of the `SearchField` and in `pos` of what follows it, i.e. `pos` / `size`
+keep designating slices of the *input*, which the printed tree no longer spells. -/
+theorem parse_laid_partial (s : Str) (t : Tree)
+    (h : parse s = .ok t) (hk : noBlankBeforeColon (lex s).1 = true) :
+    Laid .raw 0 t := by
+  unfold parse parseWith at h
+  rcases hlex : lex s with ⟨toks, lerr⟩
+  rw [hlex] at h hk
+  simp only at h hk
+  split at h
+  · rename_i t' hrun
+    cases h
+    have hnolex : lerr = none := runLoop_no_lexErr tables_ok.acceptEnd _ _ toks lerr _ hrun
+    subst hnolex
+    obtain ⟨hwf, _⟩ := lex_spec hlex
+    have hok : SeqOK (toks.map Tok.toVal) :=
+      ⟨allGood_toVal hwf, allNF_toVal hwf, adj_of_noBlank toks hk⟩
+    have hp : SeqPos (toks.map Tok.toVal) 0 := by
+      simpa using seqPos_toVal hwf.ok (lex_tokPos hlex)
+    exact run_laid tables C03.cert tables_ok C03.cert_ok _ toks none t hok hp hrun
+  · cases h
+  · cases h
+
+/-! ### corollaries, node by node
+
+`t.at? p` is `element_from_path` (Luqum/Model/Visitor.lean); `n.span ht` models
+`Item.span(head_tail=ht)` (Luqum/Lemmas/LaidPath.lean). -/
+
+/-- every node of the parse tree occurs in the input at the offset where it is laid out -/
+theorem node_occurrence_partial (s : Str) (t : Tree) (h : parse s = .ok t)
+    (hk : noBlankBeforeColon (lex s).1 = true) (p : List Nat) (n : Tree) (hn : t.at? p = some n) :
+    ∃ pre post, s = pre ++ n.full .raw ++ post ∧ Laid .raw pre.length n := by
+  have hl := parse_laid_partial s t h hk
+  obtain ⟨pre, post, hf, hl'⟩ := Laid.at p hl hn
+  rw [C01.parse_lossless_partial s t h hk] at hf
+  exact ⟨pre, post, hf, by simpa using hl'⟩
+
+/-- **C02, slices (partial: up to KF1)**: for the node `n` at any path of the parse tree, `pos` and
+`size` are natural numbers; the slice of the input they designate is `n` printed without head and
+tail; the slice widened by the lengths of head and tail is `n` printed with them (numerals as
+spelled in the source) -/
+theorem node_slices_partial (s : Str) (t : Tree) (h : parse s = .ok t)
+    (hk : noBlankBeforeColon (lex s).1 = true) (p : List Nat) (n : Tree) (hn : t.at? p = some n) :
+    ∃ pos size : Nat, n.lay.pos = some (pos : Int) ∧ n.lay.size = some (size : Int) ∧
+      (s.drop pos).take size = n.body .raw ∧
+      n.head.length ≤ pos ∧
+      (s.drop (pos - n.head.length)).take (n.head.length + size + n.tail.length) = n.full .raw := by
+  obtain ⟨pre, post, hs, hl⟩ := node_occurrence_partial s t h hk p n hn
+  obtain ⟨h1, h2, h3, h4⟩ := Laid.slices hs hl
+  refine ⟨pre.length + n.head.length, (n.body .raw).length, h1, h2, h3, by omega, ?_⟩
+  rw [Nat.add_sub_cancel]; exact h4
+
+/-- **C02, children (partial: up to KF1)**: for the node `n` at any path of the parse tree, with
+span `(a, b)` (not widened): every child has a widened span `(a', b')` with `a ≤ a' ≤ b' ≤ b`, and
+a child with a smaller index ends before a child with a larger index starts -/
+theorem children_spans_partial (s : Str) (t : Tree) (h : parse s = .ok t)
+    (hk : noBlankBeforeColon (lex s).1 = true) (p : List Nat) (n : Tree) (hn : t.at? p = some n) :
+    ∃ a b, n.span false = some (a, b) ∧
+      (∀ (i : Nat) (c : Tree), n.children[i]? = some c →
+        ∃ a' b', c.span true = some (a', b') ∧ a ≤ a' ∧ a' ≤ b' ∧ b' ≤ b) ∧
+      (∀ (i j : Nat) (ci cj : Tree), i < j → n.children[i]? = some ci → n.children[j]? = some cj →
+        ∃ a₁ b₁ a₂ b₂, ci.span true = some (a₁, b₁) ∧ cj.span true = some (a₂, b₂) ∧ b₁ ≤ a₂) := by
+  obtain ⟨pre, post, _, hl⟩ := node_occurrence_partial s t h hk p n hn
+  exact ⟨_, _, hl.span_false, SpanChain.spec hl.chain⟩
+
+/-- **C02, root (partial: up to KF1)**: the widened span of the root is the whole input -/
+theorem root_span_partial (s : Str) (t : Tree) (h : parse s = .ok t)
+    (hk : noBlankBeforeColon (lex s).1 = true) : t.span true = some (0, (s.length : Int)) := by
+  have := (parse_laid_partial s t h hk).span_true
+  rw [C01.parse_lossless_partial s t h hk] at this
+  simpa using this
+
+/-- what the implementation prints (`.norm`, numerals re-spelled) is laid out in the same way once
+the numerals of the tree are re-spelled as in C01: `Laid` for the source spelling is the statement
+"up to the numeral re-spelling allowed by C01" -/
+theorem print_norm_eq_raw_respelled (t : Tree) : t.full .norm = (C01.respell t).full .raw :=
+  C01.print_norm_eq_raw_respelled t
+
+/-! ### witnesses -/
+
+private def laidAt0 (s : String) : Bool :=
+  match parse s.toList with
+  | .ok t => laidB .raw 0 t
+  | .error _ => false
+
+private theorem laidAt0_spec (s : String) (h : laidAt0 s = true) :
+    ∃ t, parse s.toList = .ok t ∧ Laid .raw 0 t := by
+  unfold laidAt0 at h
+  split at h
+  · rename_i t ht; exact ⟨t, ht, (laidB_iff .raw 0 t).1 h⟩
+  · cases h
+
+/-- non-vacuity: a query with AND, OR, an implicit operation, a group, a field, a range, a boost, a
+fuzzy term, a proximity, a prefix and several blanks parses, satisfies the hypothesis, and is laid
+out at offset 0 (checked directly on the tree, not through the theorem) -/
+example :
+    let s := "  a  AND (f:[1 TO  5}^2.50   OR \"x y\"~3 OR w~ ) -z  NOT  u"
+    laidAt0 s = true ∧ noBlankBeforeColon (lex s.toList).1 = true :=
+  ⟨by decide +kernel, by decide +kernel⟩
+
+/-- the positions in a small instance, explicitly: the spans of the root operation (its first
+operand carries the leading blank as head, its last the trailing blank as tail), of the field, of
+the range inside the boost, and the widened span of the upper bound (whose head is the two blanks
+after `TO`) -/
+example :
+    (parse " a AND f:[1 TO  5}^2 ".toList).map (fun t =>
+      ((t.at? []).map (·.span false), (t.at? [1]).map (·.span false),
+       (t.at? [1, 0, 0]).map (·.span false), (t.at? [1, 0, 0, 1]).map (·.span true)))
+    = .ok (some (some (0, 21)), some (some (7, 21)), some (some (9, 18)), some (some (14, 17))) := by
+  rfl
+
+/-- KF1 (negative witness): with a blank between the field name and `:` the tree is not laid out:
+the `SearchField` prints as `foo:bar` (7 characters) but its size is 8, and `bar` has `pos` 5 while
+it is printed at offset 4 -/
+example :
+    (parse "foo :bar".toList).map (fun t => (laidB .raw 0 t, t.body .raw, t.span false,
+      (t.at? [0]).map (·.span false)))
+    = .ok (false, "foo:bar".toList, some (0, 8), some (some (5, 8))) := by rfl
+
+example : ∀ t, parse "foo :bar".toList = .ok t → ¬ Laid .raw 0 t := by
+  intro t ht hl
+  have h1 : laidAt0 "foo :bar" = false := by decide +kernel
+  have h2 : laidAt0 "foo :bar" = true := by
+    unfold laidAt0; rw [ht]; exact (laidB_iff .raw 0 t).2 hl
+  rw [h1] at h2; cases h2
+
+/-- in that witness `pos` and `size` still designate the right slices of the *input* -/
+example :
+    let s := "foo :bar".toList
+    (parse s).map (fun t => (t.at? [0]).map (fun n =>
+      (s.drop 5).take 3 == n.body .raw)) = .ok (some true) := by rfl
+
+/-- the empty input is a syntax error at the end -/
 theorem parse_empty : parse [] = .error .syntaxEnd := by rfl
+
 end Luqum.Props.C02
